@@ -713,13 +713,22 @@ def rule_E2(repo: Repo) -> RuleResult:
         for n in walk_no_nested(f.node):
             if isinstance(n, ast.For):
                 loop = n
-        paths = enumerate_paths(loop.body)
+        # short-circuit tests are split into atoms, so `isnan(x) or (masked and not mask[i])` and its De Morgan mirror
+        # `not isnan(x) and (not masked or mask[i])` give the same paths
+        paths = enumerate_paths(loop.body, split_bool=True)
         carried: Set[str] = set()
         rets = [n for n in walk_no_nested(f.node) if isinstance(n, ast.Return)]
         out = rets[-1].value.id if rets and isinstance(rets[-1].value, ast.Name) else "out"
-        # invalid-row paths: out[i] := A[k]
+        from .rules_k import _mask_aliases, _selection_of_path
+        m_alias = _mask_aliases(f, {"mask"})
+        # invalid-row paths (null value, or not selected by the mask): out[i] := A[k]
         for p in paths:
-            invalid = any(pol is True and isinstance(t, ast.AST) and "isnan" in norm(t) for t, pol in p.conds)
+            null_key = any(pol is True and isinstance(t, ast.Compare) and len(t.ops) == 1 and isinstance(t.ops[0], ast.Lt)
+                           and const_int(t.comparators[0]) == 0 for t, pol in p.conds)
+            if null_key:
+                continue
+            invalid = any(pol is True and isinstance(t, ast.AST) and "isnan" in norm(t) for t, pol in p.conds) \
+                or ("mask" in f.named_params and _selection_of_path(p, {"mask"}, m_alias) == "unselected")
             if not invalid:
                 continue
             found = False
